@@ -655,6 +655,33 @@ fn c09(tier: Tier) -> CheckDef {
         })
         .flavours(&["chk", "rel"]),
     );
+    // every encoded length 1..=11: L-1 equal continuation bytes, then every last byte, then a
+    // short tail; crosses the u16 (3 bytes), u32 (5 bytes) and u64 (10 bytes) width boundaries
+    let fills: [u8; 6] = [0x80, 0x81, 0xff, 0xfe, 0xc0, 0xbf];
+    subs.push(
+        Sub::new("leb-every-length-1..11", 11 * 6, "for every length L in 1..=11 and fill byte f in {80,81,ff,fe,c0,bf}: f^(L-1) . b for all 256 b, alone and followed by 00 / 01 / 7f / 80 00; fed to read_uleb128, read_uleb128_u32, read_uleb128_u16, read_sleb128, skip_leb128", move |ctx, i| {
+            let l = (i / 6) as usize + 1;
+            let f = fills[(i % 6) as usize];
+            let mut buf = vec![f; l - 1];
+            for b in 0..=255u8 {
+                buf.truncate(l - 1);
+                buf.push(b);
+                check_leb64(ctx, &buf);
+                check_leb16(ctx, &buf);
+                for tail in [&[0x00u8][..], &[0x01], &[0x7f], &[0x80, 0x00]] {
+                    buf.truncate(l);
+                    buf.extend_from_slice(tail);
+                    check_leb64(ctx, &buf);
+                    check_leb16(ctx, &buf);
+                }
+            }
+            ctx.nontriv(256 * 5);
+            if ctx.want_sample() {
+                ctx.sample(format!("{:02x} x {} then every last byte", f, l - 1));
+            }
+        })
+        .flavours(&["chk", "rel"]),
+    );
     let bvals = boundary_u64();
     let nb = bvals.len() as u64;
     let wide = tier.pick(1u64 << 22, 1u64 << 22); // cheap: thorough bound in both tiers
